@@ -14,84 +14,91 @@ type sharedMonitor struct {
 	cells map[*value]bool // addresses existing at begin
 	maps  map[*omap]bool
 	i     *interpreter
+	seen  map[interface{}]bool
 }
 
 func newSharedMonitor(i *interpreter, roots []value) *sharedMonitor {
-	m := &sharedMonitor{cells: map[*value]bool{}, maps: map[*omap]bool{}, i: i}
-	seen := map[interface{}]bool{}
-	var walk func(v value)
-	walkCell := func(p *value) {
-		if p == nil || m.cells[p] {
-			return
-		}
-		m.cells[p] = true
-		walk(*p)
-	}
-	walk = func(v value) {
-		switch v := v.(type) {
-		case *value:
-			walkCell(v)
-		case structure:
-			for k := range v {
-				m.cells[&v[k]] = true
-				walk(v[k])
-			}
-		case array:
-			for k := range v {
-				m.cells[&v[k]] = true
-				walk(v[k])
-			}
-		case []value:
-			full := v[:cap(v)]
-			if len(full) > 0 {
-				if seen[&full[0]] {
-					return
-				}
-				seen[&full[0]] = true
-			}
-			for k := range full {
-				m.cells[&full[k]] = true
-				walk(full[k])
-			}
-		case iface:
-			walk(v.v)
-		case *omap:
-			if v == nil || m.maps[v] {
-				return
-			}
-			m.maps[v] = true
-			for k := range v.keys {
-				walk(v.keys[k])
-				walk(v.vals[k])
-			}
-		case *closure:
-			if v == nil || seen[v] {
-				return
-			}
-			seen[v] = true
-			for _, e := range v.Env {
-				walk(e)
-			}
-		case tuple:
-			for _, e := range v {
-				walk(e)
-			}
-		}
-	}
+	m := &sharedMonitor{cells: map[*value]bool{}, maps: map[*omap]bool{}, i: i, seen: map[interface{}]bool{}}
 	for _, cell := range i.globals {
-		walkCell(cell)
+		m.walkCell(cell)
 	}
 	// the objects the harness declares shared (document, router, options ...)
 	for _, r := range roots {
-		walk(r)
+		m.walk(r)
 	}
 	return m
 }
 
-func (m *sharedMonitor) share(v value) {
-	// extend the shared set with everything reachable from v
-	sub := &sharedMonitor{cells: m.cells, maps: m.maps, i: m.i}
-	_ = sub
+func (m *sharedMonitor) walkCell(p *value) {
+	if p == nil || m.cells[p] {
+		return
+	}
+	m.cells[p] = true
+	m.walk(*p)
+}
+
+// walk adds everything reachable from v to the shared set.
+func (m *sharedMonitor) walk(v value) {
+	switch v := v.(type) {
+	case *value:
+		m.walkCell(v)
+	case structure:
+		for k := range v {
+			if !m.cells[&v[k]] {
+				m.cells[&v[k]] = true
+				m.walk(v[k])
+			}
+		}
+	case array:
+		for k := range v {
+			if !m.cells[&v[k]] {
+				m.cells[&v[k]] = true
+				m.walk(v[k])
+			}
+		}
+	case []value:
+		full := v[:cap(v)]
+		if len(full) > 0 {
+			if m.seen[&full[0]] {
+				return
+			}
+			m.seen[&full[0]] = true
+		}
+		for k := range full {
+			m.cells[&full[k]] = true
+			m.walk(full[k])
+		}
+	case iface:
+		m.walk(v.v)
+	case *omap:
+		if v == nil || m.maps[v] {
+			return
+		}
+		m.maps[v] = true
+		for k := range v.keys {
+			m.walk(v.keys[k])
+			m.walk(v.vals[k])
+		}
+	case *closure:
+		if v == nil || m.seen[v] {
+			return
+		}
+		m.seen[v] = true
+		for _, e := range v.Env {
+			m.walk(e)
+		}
+	case tuple:
+		for _, e := range v {
+			m.walk(e)
+		}
+	}
+}
+
+// publish: a value stored into shared memory (legitimately: inside a sync primitive) can be
+// reached by every other goroutine from then on, so it and everything reachable from it is shared
+// too: filling it in afterwards, outside the lock, is a race.
+func (m *sharedMonitor) publish(v value) {
+	m.walk(v)
 }
 
 func (m *sharedMonitor) report(fr *frame, what string, instr ssa.Instruction) {
@@ -109,15 +116,18 @@ func (m *sharedMonitor) report(fr *frame, what string, instr ssa.Instruction) {
 	m.i.w.reportViolation("shared-write", fmt.Sprintf("unsynchronised write to shared %s in %s at %s", what, fn, pos), nil, fr)
 }
 
-func (m *sharedMonitor) onWrite(fr *frame, addr *value, instr ssa.Instruction) {
+func (m *sharedMonitor) onWrite(fr *frame, addr *value, instr ssa.Instruction, val value) {
 	if m.cells[addr] {
 		m.report(fr, "memory", instr)
+		m.publish(val)
 	}
 }
 
-func (m *sharedMonitor) onMapWrite(fr *frame, mp *omap, instr ssa.Instruction) {
+func (m *sharedMonitor) onMapWrite(fr *frame, mp *omap, instr ssa.Instruction, key, val value) {
 	if m.maps[mp] {
 		m.report(fr, "map", instr)
+		m.publish(key)
+		m.publish(val)
 	}
 }
 
